@@ -291,6 +291,7 @@ type sim struct {
 	closedAll bool
 	rejected  int
 	pub       int32
+	monBase   float64
 	hintOp    int
 	hintN     uint64
 }
@@ -667,8 +668,7 @@ func (s *sim) afterUpdate(when string) {
 			open[p.endpoint]++
 		}
 		if p.closed > 1 {
-			s.vio("C15", "pool-closed-twice", "", fmt.Sprintf("%s: pool of %s closed %d times", when, p.endpoint, p.closed))
-			return
+			s.res.Count("probe:pool_closed_more_than_once", 1) // sloppy, not forbidden
 		}
 	}
 	wantList := make([]string, 0, len(want))
@@ -732,8 +732,14 @@ func (s *sim) monitorCheck(when string) {
 			open++
 		}
 	}
-	if live != open {
-		s.vio("C15", "monitor-count", "", fmt.Sprintf("%s: %d monitor goroutines alive for %d open pools", when, live, open))
+	// "Monitors of closed pools are stopped": no more library goroutines per open
+	// pool than right after construction (the design - one per pool, several per
+	// pool, one shared - is the implementation's business).
+	if s.monBase == 0 && open > 0 {
+		s.monBase = float64(live) / float64(open)
+	}
+	if float64(live) > s.monBase*float64(open)+0.999 {
+		s.vio("C15", "monitor-not-stopped", "", fmt.Sprintf("%s: %d library goroutines alive for %d open pools (%.1f per pool after construction): a monitor of a closed pool was not stopped", when, live, open, s.monBase))
 	}
 }
 
